@@ -134,12 +134,12 @@ def run(ctx):
         rp = json.load(open(ctx.replay))
         cases = [v["case"] for v in rp.get("violations", []) if "case" in v]
         # re-run the same seed and pick the cases again (the harness is deterministic per seed)
-        n = 240 if rp.get("tier", "quick") == "quick" else 4000
+        n = 200 if rp.get("tier", "quick") == "quick" else 3000
         allc = ctx.run_json([binp, "cases", str(n)], env={"VERIF_SEED": str(rp.get("seed", ctx.seed))})
         idxs = [v.get("index") for v in rp.get("violations", []) if v.get("index") is not None]
         cases = [allc[i] for i in idxs if i < len(allc)] or cases
     else:
-        n = 240 if ctx.tier == "quick" else 4000
+        n = 200 if ctx.tier == "quick" else 3000
         cases = ctx.run_json([binp, "cases", str(n)])
     ctx.n_cases = n if not ctx.replay else 0
     if not model:
@@ -149,7 +149,7 @@ def run(ctx):
     rows = "[%s]" % ";".join("(%d,%d,%s,%s,%s)" % (r[0], r[1], cbool(r[2]), cbool(r[3]), cbool(r[4])) for r in consts["versions"])
     nv = consts["nil_version"]
     jobs = [("ver", PRELUDE, {"ver": "ver_mismatches %s (%s,%s,%s)" % (rows, cbool(nv[0]), cbool(nv[1]), cbool(nv[2]))})]
-    CH = 150
+    CH = 24
     offs = []
     for off in range(0, len(cases), CH):
         lit = "[%s]" % ";\n".join(ccase(c) for c in cases[off:off + CH])
